@@ -426,3 +426,146 @@ def gen_fill(L, K, rng, strict_block):
 
 def script_id(lines):
     return hashlib.sha1("\n".join(lines).encode()).hexdigest()[:10]
+
+
+# ---------------------------------------------------------------- special members
+def gen_special(L, K, rng, nsteps):
+    """several vectors, allocator identities, copy/move construction and assignment, swap,
+    interleaved with ordinary operations; both operands are observed after every step"""
+    g = ScriptGen(L, K, rng)
+    g.moved = [False] * 4
+
+    def live():
+        return [s for s in range(4) if g.slots[s] is not None]
+
+    def usable():
+        return [s for s in live() if not g.slots[s].null]
+
+    def mk(s):
+        if rng.random() < 0.12:
+            g.lines.append("default %d" % s)
+            v = SpecVec(L, 0, 0, [0] * nfixed(L), 0, K)
+            v.null = True
+            v.block = 0
+            g.slots[s] = v
+            g.stat("default")
+        else:
+            g.op_mkvec(s, aid=rng.choice([1, 1, 2, 3]))
+
+    def alloc_eq(a, b):
+        return bool(K[3]) or a == b
+
+    mk(0)
+    for _ in range(nsteps):
+        r = rng.random()
+        free = [s for s in range(4) if g.slots[s] is None]
+        lv = live()
+        if r < 0.12 and free:
+            mk(rng.choice(free))
+        elif r < 0.40 and usable():
+            s = rng.choice(usable())
+            if not g.op_emplace(s):
+                g.op_reserve(s, True)
+        elif r < 0.46 and usable():
+            s = rng.choice(usable())
+            rng.choice([g.op_popback, g.op_erase, g.op_clear, g.op_eraserange])(s)
+        elif r < 0.52 and usable():
+            g.op_reserve(rng.choice(usable()))
+        elif r < 0.62 and free and lv:
+            # copy construction (not from a moved-from vector)
+            src = rng.choice(lv)
+            if g.moved[src]:
+                continue
+            d = rng.choice(free)
+            v = g.slots[src].clone()
+            v.aid = v.aid + 100 if K[4] else v.aid
+            if v.null:
+                v.null = False      # owns a (zero-sized) block now
+                v.block = 0
+            g.slots[d] = v
+            g.moved[d] = False
+            g.lines.append("copyctor %d %d" % (d, src))
+            g.stat("copyctor")
+        elif r < 0.72 and len(lv) >= 1:
+            d, src = rng.choice(lv), rng.choice(lv)
+            if g.moved[src] and d != src:
+                continue
+            if d != src:
+                dv, sv = g.slots[d], g.slots[src]
+                v = sv.clone()
+                v.aid = sv.aid if K[0] else dv.aid
+                # the block is reused when large enough
+                if not dv.null and dv.block >= sv.block and not (K[0] and not K[3] and dv.aid != sv.aid):
+                    v.block = dv.block
+                v.null = False
+                g.slots[d] = v
+                g.moved[d] = False
+                g.stat("copyassign" + ("-grow" if v.block != dv.block else "-reuse"))
+            else:
+                g.stat("copyassign-self")
+            g.lines.append("copyassign %d %d" % (d, src))
+        elif r < 0.80 and free and lv:
+            src, d = rng.choice(lv), rng.choice(free)
+            g.slots[d] = g.slots[src].clone()
+            g.moved[d] = g.moved[src]
+            m = SpecVec(L, 0, 0, [0] * nfixed(L), g.slots[src].aid, K)
+            m.null = True
+            m.block = 0
+            g.slots[src] = m
+            g.moved[src] = True
+            g.lines.append("movector %d %d" % (d, src))
+            g.stat("movector")
+        elif r < 0.90 and lv:
+            d, src = rng.choice(lv), rng.choice(lv)
+            if d != src:
+                dv, sv = g.slots[d], g.slots[src]
+                if K[3] or K[1] or dv.aid == sv.aid:
+                    v = sv.clone()
+                    v.aid = sv.aid if K[1] else dv.aid
+                    g.slots[d] = v
+                    g.moved[d] = g.moved[src]
+                    m = SpecVec(L, 0, 0, [0] * nfixed(L), sv.aid, K)
+                    m.null = True
+                    m.block = 0
+                    g.slots[src] = m
+                    g.moved[src] = True
+                    g.stat("moveassign-steal")
+                else:
+                    if g.moved[src] or sv.null:
+                        continue
+                    # element-wise: the source keeps its (moved-from) elements; with trivially
+                    # copyable types their values are unchanged, otherwise unspecified: the
+                    # source is only destroyed / cleared / assigned to afterwards
+                    v = sv.clone()
+                    v.aid = dv.aid
+                    if not dv.null and dv.block >= sv.block:
+                        v.block = dv.block
+                    v.null = False
+                    g.slots[d] = v
+                    g.moved[d] = False
+                    if not all_triv(L):
+                        g.moved[src] = "elems"
+                    g.stat("moveassign-elementwise")
+            else:
+                g.stat("moveassign-self")
+            g.lines.append("moveassign %d %d" % (d, src))
+        elif r < 0.96 and lv:
+            a, b = rng.choice(lv), rng.choice(lv)
+            if a != b:
+                x, y = g.slots[a], g.slots[b]
+                if not K[2] and not alloc_eq(x.aid, y.aid):
+                    continue
+                nx, ny = y.clone(), x.clone()
+                if not K[2]:
+                    nx.aid, ny.aid = x.aid, y.aid
+                g.slots[a], g.slots[b] = nx, ny
+                g.moved[a], g.moved[b] = g.moved[b], g.moved[a]
+            g.lines.append("swap %d %d" % (a, b))
+            g.stat("swap")
+        elif lv:
+            s = rng.choice(lv)
+            g.op_destroy(s)
+            g.moved[s] = False
+        if rng.random() < 0.08:
+            g.lines.append("junk %d" % rng.choice([0, 85, 170, 255]))
+    return g.finish(), g.stats
